@@ -181,10 +181,16 @@ async def run_worker(loop, sc: dict, make=None, projector=inmem_projector, signa
     rec.policy_of = lambda topic: policies[topic]
 
     nworkers = sc.get("nworkers", 1)
+    # (`worker_without_results': the producers store results, the worker's own connection has no result store configured --
+    #  a deployment mistake that costs the results, not the messages' dispositions)
+    wconn = conn
+    if sc.get("worker_without_results"):
+        wconn = Connection(broker, ab, None)
+        await wconn.connect()
     workers = [Worker(graceful_shutdown_time=sc["worker"].get("grace_s", 1.0), handle_signals=[],
                       tasks_limit=sc["worker"].get("tasks_limit", 1000),
                       messages_limit=sc["worker"].get("messages_limit", 0) or float("inf"),
-                      router_defaults=RouterDefaults(converter=conv), _connection=conn) for _ in range(nworkers)]
+                      router_defaults=RouterDefaults(converter=conv), _connection=wconn) for _ in range(nworkers)]
     w = workers[0]
     seen_args = []
 
@@ -233,6 +239,8 @@ async def run_worker(loop, sc: dict, make=None, projector=inmem_projector, signa
                             exc = KeyError(f"k{jid}")
                             m.set_exception(exc)
                             last_outcome[jid]["eager"] = ("exc", exc)
+                        elif extra == "sw":
+                            pass
                         elif extra == "cb":
                             m.add_callback(lambda: rec.exec_log.append({"id": jid, "cb": True, "t_us": CLOCK.us}))
                     op = parts[0][2:]
@@ -242,6 +250,11 @@ async def run_worker(loop, sc: dict, make=None, projector=inmem_projector, signa
                         last_outcome[jid]["eager"] = None
                         last_outcome[jid]["what"] = "raise"
                         raise
+                    except Exception:       # noqa: BLE001
+                        # `+sw': the actor's own error handling around the eager action catches Exception -- the eager response
+                        # is not one, it ends the body all the same
+                        if "sw" not in parts[1:]:
+                            raise
                     rec.exec_log.append({"id": jid, "after_eager": True})   # must be unreachable
                     return None
                 raise AssertionError(what)
@@ -360,8 +373,8 @@ async def run_worker(loop, sc: dict, make=None, projector=inmem_projector, signa
         if state["stopped"] or not runners:
             return False
         state["stopped"] = True
-        if not state.get("killed"):        # (a dead process is not asked to stop: nothing is expected of it any more)
-            rec.emit({"e": "stop", "dl": ("us", CLOCK.us + int(grace * 1e6) + SLACK_US)})
+        if not state.get("killed") and not state.get("selfstop"):        # (a dead process is not asked to stop: nothing is expected of it any more)
+            rec.emit({"e": "stop", "dl": ("us", CLOCK.us + int(grace * 1e6) + SLACK_US), "gdl": ("us", CLOCK.us + int(grace * 1e6))})
         for r in runners:
             if which is None or r.verif_wno == which + 1:
                 r.sync_stop_wait_and_cancel(grace)
@@ -394,7 +407,11 @@ async def run_worker(loop, sc: dict, make=None, projector=inmem_projector, signa
         if loop.steps - state["steps0"] > sc.get("max_steps", 300_000) and not state.get("capped"):
             state["capped"] = True          # runaway scenario (no virtual time passes): abort it
             main_task.cancel()
-        if runners and not state["forced"] and any(r.cancel_event.is_set() and r._tasks for r in runners):
+        if runners and not state["stopped"] and not state.get("selfstop") and nworkers == 1 and any(r.stop_consume_event.is_set() for r in runners):
+            # the worker stopped consuming by itself (messages limit): from here on it has the graceful period to return
+            state["selfstop"] = True
+            rec.emit({"e": "stop", "dl": ("us", CLOCK.us + int(grace * 1e6) + SLACK_US), "gdl": ("us", CLOCK.us + int(grace * 1e6))})
+        if runners and not state["forced"] and not state.get("killed") and any(r.cancel_event.is_set() and r._tasks for r in runners):
             # the cancel event only *forces* anything if processing tasks are still pending
             state["forced"] = True
             rec.emit({"e": "forced"})
@@ -467,7 +484,8 @@ async def run_worker(loop, sc: dict, make=None, projector=inmem_projector, signa
     if sc.get("must_self_stop") and state["stopped"] and run_exc is None:
         run_exc = "run() did not return by itself (stopped by the harness at the horizon)"
     if late or run_exc is not None:
-        rec.emit({"e": "late", "why": run_exc or "a job was not executed by the deadline"})
+        rec.emit({"e": "late", "why": run_exc or "a job was not executed by the deadline",
+                  "raised": bool(run_exc and run_exc.startswith("run() raised"))})
     rec.emit({"e": "time", "now": ("us", CLOCK.us)})
     rec.emit({"e": "quiet", "storefault": bool(sc.get("store_fail_at")),
               "foreign": [rec.mid(j["id"]) for j in sc["jobs"] if j.get("foreign")]})
